@@ -91,6 +91,9 @@ func (w *World) ruleCgoExtents(rule string) {
 				av := stripConv(a)
 				for k := 0; k < 3; k++ {
 					// pointer produced by an accessor the rules do not know (`h.cPtr()` returning &h[0])
+					if hc, isCall := av.(*ssa.Call); isCall && helperCallee(hc) != nil {
+						bindHelper(hc) // the accessor's parameters denote the arguments of *this* call from here on
+					}
 					if in := helperValue(av); in != nil {
 						av = stripConv(in)
 						continue
@@ -142,6 +145,12 @@ func (w *World) ruleCgoExtents(rule string) {
 					}
 				}
 				base := ia.X
+				if bp, isP := stripConv(base).(*ssa.Parameter); isP && bp.Parent() != fn {
+					// the accessor's own parameter: the slice the caller handed to it
+					if up := enteringArg(bp); up != nil {
+						base = up
+					}
+				}
 				if arr, isArr := deref(base.Type()).Underlying().(*types.Array); isArr {
 					w.check(arr.Len() >= need, rule, key, c.Pos(), fmt.Sprintf("array of %d elements covers the extent %s", arr.Len(), extTxt), fmt.Sprintf("array of %d elements is shorter than the %d elements C accesses", arr.Len(), need))
 					continue
@@ -173,6 +182,10 @@ func (w *World) ruleCgoExtents(rule string) {
 					continue
 				}
 				// parameter of the enclosing function: becomes a requirement on callers
+				if p, isP := stripConv(base).(*ssa.Parameter); isP && paramIndex(fn, p) < 0 {
+					w.undecided(rule, key, c.Pos(), "pointer produced by a helper whose argument could not be traced back to this function: "+render(a))
+					continue
+				}
 				if p, isP := stripConv(base).(*ssa.Parameter); isP {
 					// a dominating length guard inside the function already gave ok above; otherwise propagate
 					reqs = append(reqs, lenReq{fn, paramIndex(fn, p), need, fmt.Sprintf("&%s[%d] handed to C.%s (needs %d elements)", p.Name(), idxHi, cname, need), c})
